@@ -122,7 +122,10 @@ func runThoroughExtras(c *Ctx, pd *propDef, ri *runInfo, repo string, overlay ma
 		resetCaches()
 		rep2 := NewReport(pd.ID)
 		c2 := &Ctx{P: alt, Pure: ComputePurity(alt), R: rep2, Tier: "thorough"}
+		prev := curProg
+		curProg = alt
 		pd.Run(c2)
+		curProg = prev
 		n, bad := 0, 0
 		for _, o := range rep2.Obls {
 			if o.Fixture {
